@@ -595,6 +595,9 @@ def c09(rec, st):
             else:
                 if feas:
                     s.add(4)
+                    # documented: without objective the objective is the zero function
+                    if 0.0 <= target:
+                        s.add(1)
         if e.raised:
             s.add(3)
         sat.append(None if amb and not e.raised else (s if not amb else (s | {"amb"})))
